@@ -209,3 +209,94 @@ pub fn oneway(cex: &Value) -> Result<String, String> {
   }
   Err("one-way revocation and status mapping agree with the model".to_owned())
 }
+
+/// string form round trip for lists of several sizes (up to 24 Mi entries = 3 MiB), sparse and dense content
+pub fn codec(_cex: &Value) -> Result<String, String> {
+  let r = no_panic(|| -> Vec<String> {
+    let mut log = Vec::new();
+    for entries in [131_072usize, 131_080, 1_000_000, 16_777_216, 16_777_224, 25_165_824] {
+      let mut l = match StatusList2021::new(entries) {
+        Ok(l) => l,
+        Err(e) => {
+          log.push(format!("list of {entries} entries refused: {e}"));
+          continue;
+        }
+      };
+      let n = l.len();
+      for i in [0usize, 1, 7, 8, n / 2, n - 9, n - 8, n - 1] {
+        let _ = l.set(i, true);
+      }
+      let text = l.clone().into_encoded_str();
+      match StatusList2021::try_from_encoded_str(&text) {
+        Ok(back) => {
+          if back.len() != n {
+            log.push(format!("list of {n} entries decodes to {} entries", back.len()));
+          } else if back != l {
+            log.push(format!("list of {n} entries decodes to different content"));
+          }
+        }
+        Err(e) => log.push(format!("list of {n} entries does not decode from its own string form: {e}")),
+      }
+    }
+    log
+  });
+  match r {
+    Err(msg) => Ok(format!("status list codec panicked: {msg}")),
+    Ok(log) if !log.is_empty() => Ok(log.join("; ")),
+    Ok(_) => Err("status list codec: every size round-trips".to_owned()),
+  }
+}
+
+/// status evaluation against a list credential: id and purpose of the entry have to match the list before an entry is read
+pub fn status_eval(_cex: &Value) -> Result<String, String> {
+  use identity_core::common::Object;
+  use identity_credential::revocation::status_list_2021::StatusList2021Entry;
+  use identity_credential::validator::{JwtCredentialValidatorUtils, JwtValidationError, StatusCheck};
+  let r = no_panic(|| -> Vec<String> {
+    let mut log = Vec::new();
+    for list_purpose in [StatusPurpose::Revocation, StatusPurpose::Suspension] {
+      let mut list = sl_credential(list_purpose);
+      let _ = list.update(|l| l.set_entry(420, true));
+      let list_id = list.id.clone().unwrap();
+      for entry_purpose in [StatusPurpose::Revocation, StatusPurpose::Suspension] {
+        for (idx, set) in [(420usize, true), (421, false)] {
+          for same_list in [true, false] {
+            let url = if same_list { list_id.clone() } else { Url::parse("http://example.com/other-list").unwrap() };
+            let entry = StatusList2021Entry::new(url, entry_purpose, idx, None);
+            let cred: Credential<Object> = CredentialBuilder::default()
+              .issuer(Url::parse("http://example.com/i").unwrap())
+              .subject(Subject::with_id(Url::parse("http://example.com/s").unwrap()))
+              .status(entry)
+              .build()
+              .unwrap();
+            let got = JwtCredentialValidatorUtils::check_status_with_status_list_2021(&cred, &list, StatusCheck::Strict);
+            let want = if !same_list || entry_purpose != list_purpose {
+              "invalid"
+            } else if !set {
+              "ok"
+            } else if list_purpose == StatusPurpose::Revocation {
+              "revoked"
+            } else {
+              "suspended"
+            };
+            let have = match &got {
+              Ok(()) => "ok",
+              Err(JwtValidationError::Revoked) => "revoked",
+              Err(JwtValidationError::Suspended) => "suspended",
+              Err(_) => "invalid",
+            };
+            if have != want {
+              log.push(format!("list {list_purpose:?}, entry {entry_purpose:?} index {idx} (set={set}), same list {same_list}: reported {have}, expected {want}"));
+            }
+          }
+        }
+      }
+    }
+    log
+  });
+  match r {
+    Err(msg) => Ok(format!("status evaluation panicked: {msg}")),
+    Ok(log) if !log.is_empty() => Ok(log[..log.len().min(4)].join("; ")),
+    Ok(_) => Err("status evaluation agrees with the list, its id and its purpose".to_owned()),
+  }
+}
